@@ -68,6 +68,8 @@ emit_file = Contract(
                note="between open and close there is exactly one write"),
         Clause("F-black", "(len(log_pos_format_str) == 1) == (not skip_black)", note="black runs iff it was not skipped"),
         Clause("F-wrap", "(log_Module_n == 1) == (not typeis(node, 'Module'))", note="a bare ClassDef / FunctionDef is wrapped into a Module"),
+        Clause("F-append-after-format", "len(log_pos_open) == 1 or len(log_pos_format_str) == 0 or log_pos_open[0] > log_pos_format_str[-1]",
+               when=["a,black"], note="C11.D3: the fresh-line prefix is decided after formatting (black strips leading blank lines)"),
         Clause("F-append-reads-first", "mode != 'a' or len(log_pos_open) == 1 or log_open_args[0][1] == 'rt'",
                when=["a,black"], note="C11.D3: in append mode the existing text is only read (to start on a fresh line)"),
     ],
